@@ -128,6 +128,21 @@ static void sessions(int pat, int tier)
     hx_fill(key, klen, pat, 1); hx_fill(nonce, 16, pat, 2); hx_fill(ad, 64, pat, 3); hx_fill(m, 64, pat, 4);
     if (tier) memset(nonce + 9, 0xff, 7);   /* carries across packets */
     int nq = tier ? 12 : 9;
+    /* re-initialisation of a used object with a NULL nonce and/or NULL key (documented: all-zero): a genuine packet made under the all-zero value must decrypt, one made under the old value must not */
+    for (int v = 0; v < 3; v++) for (int li = 0; li < nq; li++) {
+        static const uint8_t zk[20], zn[16]; size_t l = (size_t)qs[li]; api_inc_state st; memset(&st, 0xEE, sizeof st);
+        const uint8_t *kk = (v & 1) ? key : 0, *nn = (v & 2) ? nonce : 0;     /* v=0 both NULL, 1 NULL nonce, 2 NULL key */
+        api_inc_init[alg](&st, nonce, key); api_inc_start[alg](&st, ad, 5); api_inc_enc[alg](&st, m, prev, l); api_inc_encfin[alg](&st, tag);
+        api_inc_reinit[alg](&st, nn, kk);
+        api_aead_enc[alg](c, &clen, m, l, ad, 3, nn ? nn : zn, kk ? kk : zk);
+        api_inc_start[alg](&st, ad, 3); api_inc_dec[alg](&st, c, out, l); int r = api_inc_decfin[alg](&st, c + l); hx_stat("evaluations", 1);
+        snprintf(kb, sizeof kb, "%s:session:reinit-null", keybase);
+        if (r != 0 || memcmp(out, m, l)) hx_fail(kb, "after reinit with %s a genuine packet made under the all-zero value is %s (mlen=%zu)", v == 0 ? "NULL key and NULL nonce" : v == 1 ? "a NULL nonce" : "a NULL key", r ? "rejected" : "decrypted wrongly", l);
+        api_aead_enc[alg](c, &clen, m, l, ad, 3, nonce, key);
+        api_inc_reinit[alg](&st, nn, kk); api_inc_start[alg](&st, ad, 3); api_inc_dec[alg](&st, c, out, l); r = api_inc_decfin[alg](&st, c + l); hx_stat("evaluations", 1); forged++;
+        if (r >= 0) hx_fail(kb, "after reinit with %s a packet made under the old key and nonce is accepted (mlen=%zu)", v == 0 ? "NULL key and NULL nonce" : v == 1 ? "a NULL nonce" : "a NULL key", l);
+        api_inc_free[alg](&st);
+    }
     for (int pk = 0; pk < 4; pk++) for (int pi = 0; pi < nq; pi++) for (int pa = 0; pa < 3; pa++) for (int li = 0; li < nq; li++) for (int ai = 0; ai < 3; ai++) {
         size_t pl = (size_t)qs[pi], l = (size_t)qs[li], padl = (size_t)qs[pa * 2], adl = (size_t)qs[ai * 3 % 7];
         api_inc_state st; api_inc_init[alg](&st, nonce, key);
